@@ -12,8 +12,8 @@ use crate::{
 };
 
 use super::{
-    new_err, r#type::NativeType, BinaryOperation, ClassType, CompilationState, Compile,
-    Dependencies, TypeLayout, TypecheckFlags, Value,
+    new_err, r#type::NativeType, subtract_supplied, BinaryOperation, ClassType, CompilationState,
+    Compile, Dependencies, TypeLayout, TypecheckFlags, Value,
 };
 
 #[derive(Debug)]
@@ -49,6 +49,24 @@ impl Dependencies for NumberLoop {
         } else {
             vec![]
         }
+    }
+
+    /// The counter only exists inside the loop: the bounds are evaluated before it is created.
+    fn net_dependencies(&self) -> Vec<super::Dependency> {
+        let mut result = self.val_start.net_dependencies();
+        result.append(&mut self.val_end.net_dependencies());
+
+        let mut inside_loop = vec![];
+
+        if let Some(ref step) = self.step {
+            inside_loop.append(&mut step.net_dependencies());
+        }
+
+        inside_loop.append(&mut self.body.net_dependencies());
+
+        result.append(&mut subtract_supplied(inside_loop, &self.supplies(), false));
+
+        result
     }
 }
 
